@@ -146,6 +146,30 @@ func init() {
 		S.explore = false
 		return nil
 	})
+	reg(vpPkg+"YieldAtLocks", func(fr *frame, a []value) value { S.yieldAtLocks = a[0].(bool); return nil })
+	reg(vpPkg+"Go", func(fr *frame, a []value) value {
+		spawnAt(fr, token.NoPos, a[0], nil)
+		return nil
+	})
+	reg(vpPkg+"Wait", func(fr *frame, a []value) value {
+		S.block(func() bool {
+			for _, t := range S.threads[1:] {
+				if !t.done {
+					return false
+				}
+			}
+			return true
+		}, "vp.Wait")
+		// joining: everything the finished goroutines did happens-before the continuation
+		for _, t := range S.threads[1:] {
+			S.cur.vc.join(t.vc)
+		}
+		return nil
+	})
+	reg("github.com/0chain/common/core/statecache.verifYield", func(fr *frame, a []value) value {
+		S.yield(str(a[0]))
+		return nil
+	})
 	reg(vpPkg+"HighFirst", func(fr *frame, a []value) value { S.highFirst = a[0].(bool); return nil })
 	reg(vpPkg+"RaceDetect", func(fr *frame, a []value) value { raceOn = a[0].(bool); return nil })
 	reg(vpPkg+"Logf", func(fr *frame, a []value) value { return nil })
